@@ -108,12 +108,21 @@ func (mi *MessageInfo) initOneofFieldCoders(od protoreflect.OneofDescriptor, si 
 		srcinfo.funcs.merge(dstp, srcp, srcinfo, opts)
 	}
 	if needIsInit {
-		first.funcs.isInit = func(p pointer, _ *coderFieldInfo) error {
+		isInit := func(p pointer, _ *coderFieldInfo) error {
 			p, info := getInfo(p)
 			if info == nil || info.funcs.isInit == nil {
 				return nil
 			}
 			return info.funcs.isInit(p, info)
+		}
+		first.funcs.isInit = isInit
+		// The unmarshal functions consult the initialized flag of a field
+		// only if the field has an isInit function, so every member which
+		// can hold a partial message needs one, not just the first.
+		for _, cf := range oneofFields {
+			if cf.funcs.isInit != nil {
+				mi.coderFields[cf.num].funcs.isInit = isInit
+			}
 		}
 	}
 }
